@@ -12,7 +12,7 @@ EXPLANATION = (
     "dispatch once. (response-count) dispatch* return None exactly on the notify edge and Some otherwise; the Reject arm "
     "answers iff !notify; each loop writes/enqueues one frame per Some and none otherwise, before reading the next frame. "
     "(id-echo) every response constructor copies header.id from the request it was given. (echo-rule) stamp_response_query and "
-    "response_echo_query both take the request query iff the response's own query is empty, and every server write site passes "
+    "response_echo_query both take the request query iff the response's own query is empty (the guard set is exact: no further condition such as the error flag), and every server write site passes "
     "the query of the request being answered. (error-code-table) the rows of route (guard -> code) are exactly "
     "{version != 1 -> VersionMismatch, non-UTF-8 -> InvalidQuery, raw-binary/unknown query format -> InvalidQuery, unknown path "
     "-> MethodNotFound}; handler errors are reported with err.to_error_code(); RepeError::to_error_code agrees with the frozen "
@@ -319,6 +319,11 @@ def echo_rule(facts, R):
         req_nonempty = any(is_call(f["expr"], "is_empty") and "request_query" in render(f["expr"][2][0]) and f["val"] is False for f in fs)
         v = s.rvalue(w["rv"]) if w["kind"] == "store" else ("call", w["term"]["callee"]["path"], tuple(s.op(a) for a in w["term"]["args"]), w["bb"])
         from_req = "request_query" in render(v)
+        extra = [render(f["expr"]) + " is " + str(f["val"]) for f in fs
+                 if not (is_call(f["expr"], "is_empty") and (render(f["expr"][2][0]).endswith("response.query") or "request_query" in render(f["expr"][2][0])))]
+        R.check(not extra, "echo-rule", st.path, "stamp depends on nothing but the two emptiness tests",
+                "the echo of the request query is additionally conditional on %s: a response whose own query is empty can go out without the request's query" % extra,
+                w["span"], "guards: response.query empty, request_query non-empty")
         R.check(resp_empty and req_nonempty and from_req, "echo-rule", st.path, "stamp iff response query empty",
                 "response.query := %s under %s" % (render(v), texts(fs)), w["span"], "query := request_query only when the handler left it empty")
     eq = facts.body("message::response_echo_query")
